@@ -1423,17 +1423,16 @@ func (b *Builder) unrollEach(ins ssa.Instruction, ev *Term, at ssa.Instruction, 
 		if nBack != 1 || !blk.Dominates(be.From) {
 			return nil
 		}
+		// the history is taken at a point that is reached only by leaving the loop through its header: every other way
+		// out of the loop (an error return from the body, a panic) must not lead there
 		for x := range loop {
 			if x == hdr {
 				continue
 			}
 			for _, sx := range x.Succs {
-				if !loop[sx] {
+				if !loop[sx] && (sx == at.Block() || ReachableFrom(sx, nil)[at.Block()]) {
 					return nil
 				}
-			}
-			if len(x.Succs) == 0 {
-				return nil
 			}
 		}
 		bd, m := Match("bin<<>(ind<+1>(0), len($c))", b.of(ifi.Cond, ifi, depth+1))
